@@ -209,6 +209,11 @@ func checkC04(c *Ctx) {
 		c.Undecided("C04-R1", "package tcell", "-", "not loaded")
 		return
 	}
+	c.Rule("C04-R9", "in every description the set and the reset string of a mode differ (a reset that repeats the set string leaves the mode as the application left it), and DEC private mode pairs end in h and l the right way round")
+	c.Expect("C04-R9", 1)
+	if db := buildDB(c, p); db != nil {
+		checkModePairsDiffer(c, p, "C04-R9", db)
+	}
 	// anchors by role
 	var engage, disengage, finalize *ssa.Function
 	var stopCall, startCall, closeCall ssa.Instruction
